@@ -681,3 +681,30 @@ func sortedKeys[V any](m map[string]V) []string {
 	sort.Strings(ks)
 	return ks
 }
+
+// linkSlices emits the term-introduction fact relating reads of a derived slice (result of
+// append or of a slice expression) to reads of the slice it was derived from: whenever
+// rd(h, derived, i) occurs, rd(h2, orig, shift+i) is made available (a tautology given rd's definition).
+func (vc *VC) linkSlices(key string, hs Sort, newH, oldH Term, derived, orig Term, shift Term) {
+	if strings.HasPrefix(derived.S, "(") || derived.S == orig.S {
+		return
+	}
+	inner := Sort(string(hs)[len("(Array Int (Array Int ") : len(hs)-2])
+	fn := "rd!" + smtName(key)
+	if !vc.declSet[fn] {
+		vc.rd(key, Term{"H0!" + smtName(key), hs}, NilSlice, IntLit(0))
+	}
+	ii := Term{"i?", SInt}
+	idx := ii
+	if shift.S != "0" {
+		idx = Add(shift, ii)
+	}
+	if newH.S == "" {
+		hh := Term{"h?", hs}
+		vc.assumeGlobal(Forall([]Term{hh, ii}, [][]Term{{App(inner, fn, hh, derived, ii)}},
+			Eq(App(inner, fn, hh, orig, idx), Select(Select(hh, SBase(orig)), Add(SOff(orig), idx)))))
+		return
+	}
+	vc.assumeGlobal(Forall([]Term{ii}, [][]Term{{App(inner, fn, newH, derived, ii)}},
+		Eq(App(inner, fn, oldH, orig, idx), Select(Select(oldH, SBase(orig)), Add(SOff(orig), idx)))))
+}
